@@ -410,3 +410,29 @@ PROPS['C02'] = dict(
                  'fresh ciphertexts inside the search are made by the harness with the parameter set\'s noise level and a deterministic generator (library encryption is C03/C07)'],
     jobs=_c02, min_outcomes=10,
 )
+
+# ------------------------------------------------------------------------------------------------ C16
+def _c16(tier, seed):
+    g = dict(extra_src=['guardalloc.cpp'])
+    q = tier == 'quick'; dl = dict(deadline=(100 if q else 2400), timeout=(300 if q else 3000))
+    jobs = J('c16.cpp', 'optim', 'spqlios-fma', n=(5 if q else 8), args=['part=cells'], env={'VF_GUARD': 'after', 'VF_FILL': '0xA5'}, **g, **dl)
+    jobs += J('c16.cpp', 'optim', 'spqlios-fma', n=(5 if q else 8), args=['part=cells'], env={'VF_GUARD': 'before', 'VF_FILL': '0x5A'}, **g, **dl)
+    jobs += J('c16.cpp', 'asan', 'nayuki-portable', n=(4 if q else 8), args=['part=cells'], cxxflags='-DVF_NO_GUARDALLOC', **dl)
+    for be in BE:
+        jobs += J('c16.cpp', 'optim', be, n=1, args=['part=threads'], env={'VF_GUARD': 'off'}, **g)
+    if not q:
+        jobs += J('c16.cpp', 'asan-debug', 'fftw', n=8, args=['part=cells'], cxxflags='-DVF_NO_GUARDALLOC', **dl)
+        jobs += J('c16.cpp', 'optim', 'fftw', n=6, args=['part=cells'], env={'VF_GUARD': 'after', 'VF_FILL': '0x11'}, **g, **dl)
+        jobs += J('c16.cpp', 'optim', 'nayuki-avx', n=6, args=['part=cells'], env={'VF_GUARD': 'after', 'VF_FILL': '0xEE'}, **g, **dl)
+    return jobs
+PROPS['C16'] = dict(
+    level='fault_enumeration',
+    rule='cases = (n, k, l, Bgbit, t, basebit) cells of the configuration matrix x a complete API lifecycle (keygen, encrypt, 14 gates, export/import on both transports, gates with the imported keys, secret-key round trip, array allocators '
+         'with 0/1/3 elements, the four deletions in one of the 24 orders - all 24 on the small default-layout cells -, collector finalize), run twice; (concurrent threads, FFT uses) thread create/use/exit histories x 5 back-ends. '
+         'oracles by job: guard pages after / before every heap block on the optim build (inline asm and .s accesses), ASan+UBSan build, digests equal under two different fill patterns of fresh memory (xcmp), live heap blocks stationary. '
+         'non-trivial = every cell (a full lifecycle) / thread history with FFT use',
+    bounds={'quick': 'n in {1,7,8,9,1025} x k in {1,2} with the default layouts, the (l,Bgbit) and (t,basebit) grids for n<=9,k=1, one k=2 n=1025 cell; key material <= 64 MB per cell; thread histories 1-3 threads x {0,1,3} uses x 5 back-ends',
+            'thorough': 'whole matrix n in {1,3,7,8,9,500,630,1024,1025,1100} x k x 6 (l,Bgbit) x 5 (t,basebit) with key material <= 300 MB (excluded cells listed in the evidence); + asan-debug/fftw, guard pages on fftw and nayuki-avx'},
+    assumptions=['valgrind memcheck cannot execute the -march=native build on this CPU (AVX-512); guard pages on the real optim build are the oracle for the assembly paths', 'guard pages: at most ~24000 live guarded blocks (vm.max_map_count); the rest is served unguarded and counted'],
+    jobs=_c16, max_report=10,
+)
